@@ -317,3 +317,21 @@ pub fn run(run: &Run) {
     }
     run.sample(json!({"example_token_string": "p ( X ) :- 9223372036854775808", "example_mutant_of": files.first()}));
 }
+
+pub fn replay(v: &serde_json::Value) -> i32 {
+    let r = &v["replay"];
+    let kind = match r["input_kind"].as_str().unwrap_or("Program") {
+        "Theory" => Kind::Theory,
+        "Specification" => Kind::Specification,
+        "UserGuide" => Kind::UserGuide,
+        "Outline" => Kind::Outline,
+        _ => Kind::Program,
+    };
+    let text = r["input"].as_str().unwrap_or("");
+    let run = Run::new("C16", "quick");
+    check(&run, kind, text, "replay");
+    check(&run, kind, text, "replay");
+    let vs = run.violations.lock().unwrap();
+    println!("replay {kind:?} input of {} bytes: {:?}", text.len(), vs.iter().map(|x| x.key.clone()).collect::<Vec<_>>());
+    if vs.is_empty() { 0 } else { 1 }
+}
